@@ -1,33 +1,589 @@
+// C18: no message from a peer can crash the node.
+//
+// Structure-aware exhaustive small-scope enumeration (E3) of peer messages against the REAL reactors
+// (consensus manager + consensus state, block sync, transaction pool, evidence, peer exchange) and the
+// real MConnection packet framing. See units.go / *_units.go for the enumerated space and cons.go /
+// others.go for the oracles.
+//
+// Process model: the parent computes the list of work units and hands them to worker processes
+// (self-exec, one per CPU). A worker executes its cases one after the other in a single goroutine, so
+// the allocation counter around a delivery is exact, a giant allocation or an unrecovered panic in a
+// background goroutine of the code under test kills only the worker, and the parent attributes the
+// death to the journalled case (re-running it alone five times before reporting it).
 package main
 
 import (
+	"bufio"
+	"encoding/json"
 	"fmt"
+	"io"
+	"os"
+	"os/exec"
+	"path/filepath"
+	"runtime"
+	"runtime/debug"
+	"runtime/metrics"
+	"sort"
+	"strconv"
+	"strings"
+	"sync"
+	"syscall"
 	"time"
 
-	"github.com/kardiachain/go-kardia/consensus"
+	"github.com/kardiachain/go-kardia/lib/log"
+
+	"verif/mc/report"
 )
 
-func main() {
-	t0 := time.Now()
-	t := pickTarget()
-	fmt.Println("target", t, time.Since(t0))
-	for _, st := range allNodeStates {
-		t1 := time.Now()
-		c, err := newConsNode(st, t)
-		if err != nil {
-			fmt.Println(st, "ERR", err)
-			continue
-		}
-		fmt.Println(st, time.Since(t1), c.Key, "proposer", c.Proposer)
-		p := newMockPeer(1)
-		c.ConR.InitPeer(p)
-		msg := &consensus.NewRoundStepMessage{Height: c.Height, Round: c.Round, Step: 3, SecondsSinceStartTime: 1}
-		if c.Height > 1 {
-			msg.LastCommitRound = c.PrevRound
-		}
-		c.ConR.Receive(consensus.StateChannel, p, consensus.MustEncode(msg))
-		ps := p.Get("ConsensusReactor.peerState")
-		fmt.Println("  peer:", consensus.VerifC18PeerDigest(ps.(*consensus.PeerState)), "held:", consensus.VerifC18HeldLocks(c.ConR, ps.(*consensus.PeerState)), p.wasStopped())
-		c.close()
+func repoRoot() string {
+	if r := os.Getenv("VERIF_REPO"); r != "" {
+		return r
+	}
+	return "/repo"
+}
+
+var allocSample = []metrics.Sample{{Name: "/gc/heap/allocs:bytes"}}
+
+// allocBytes is the cumulative number of heap bytes allocated by this process.
+func allocBytes() uint64 {
+	metrics.Read(allocSample)
+	return allocSample[0].Value.Uint64()
+}
+
+// ---------------------------------------------------------------------------------------------
+// units of all reactors
+
+func allUnits(thorough bool) []*unit {
+	var us []*unit
+	us = append(us, consUnits(thorough)...)
+	us = append(us, otherUnits(thorough)...)
+	return us
+}
+
+// ---------------------------------------------------------------------------------------------
+// worker
+
+type worker struct {
+	thorough bool
+	cons     *consEnv
+	oth      *otherEnv
+	journal  *os.File
+	out      *bufio.Writer
+	unitIdx  int
+	caseIdx  int
+	only     int // >=0: execute only this case index of the unit
+	from     int
+	skip     map[int]bool
+	res      *unitResult
+	seenViol map[string]bool
+	sinceFl  int
+	buildsAt int
+	capture  int // >=0: do not execute; print the case with this index
+	flushAt  time.Time
+}
+
+type violRec struct {
+	Unit   string `json:"unit"`
+	Case   *caseT `json:"case"`
+	Oracle string `json:"oracle"`
+	What   string `json:"what"`
+}
+
+type unitResult struct {
+	T          string            `json:"t"`
+	Unit       int               `json:"unit"`
+	Upto       int               `json:"upto"`
+	WallMs     float64           `json:"wall_ms"`
+	Deliveries int64             `json:"deliveries"`
+	Cases      int64             `json:"cases"`
+	Distinct   []string          `json:"distinct"`
+	Stages     map[string]int64  `json:"stages"`
+	Contained  map[string]int64  `json:"contained"`
+	Viols      []violRec         `json:"viols"`
+	Irrepro    []string          `json:"irrepro"`
+	Samples    []json.RawMessage `json:"samples"`
+	Builds     int               `json:"builds"`
+	MaxAlloc   uint64            `json:"max_alloc"`
+	RoundTrips int64             `json:"roundtrips"`
+	Decoded    int64             `json:"decoded"`
+	Notes      map[string]int64  `json:"notes"`
+	dset       map[string]struct{}
+}
+
+func (w *worker) writeJournal() {
+	if w.journal == nil {
+		return
+	}
+	var b [16]byte
+	for i := 0; i < 8; i++ {
+		b[i] = byte(uint64(w.unitIdx) >> (8 * i))
+		b[8+i] = byte(uint64(w.caseIdx) >> (8 * i))
+	}
+	w.journal.WriteAt(b[:], 0)
+}
+
+func (w *worker) execute(cs *caseT) *outcome {
+	switch cs.Reactor {
+	case "consensus":
+		return w.cons.run(cs)
+	default:
+		return w.oth.run(cs)
 	}
 }
+
+func oracleSet(o *outcome) string {
+	var s []string
+	for _, v := range o.Viols {
+		s = append(s, v.Oracle)
+	}
+	sort.Strings(s)
+	return strings.Join(s, ",")
+}
+
+func (w *worker) emit(cs *caseT) {
+	idx := w.caseIdx
+	w.caseIdx++
+	if w.capture >= 0 {
+		if idx == w.capture {
+			c := *cs
+			c.freeze()
+			b, _ := json.Marshal(c)
+			w.out.Write(b)
+			w.out.WriteByte('\n')
+			w.out.Flush()
+			w.capture = 1 << 60
+		}
+		return
+	}
+	if w.only >= 0 && idx != w.only {
+		return
+	}
+	if idx < w.from || w.skip[idx] {
+		return
+	}
+	if w.sinceFl >= 1000 {
+		w.flush("part", idx)
+	}
+	w.sinceFl++
+	w.caseIdx = idx
+	w.writeJournal()
+	w.caseIdx = idx + 1
+	out := w.execute(cs)
+	r := w.res
+	r.Cases++
+	r.Deliveries += int64(1 + len(cs.pre))
+	if out.Decoded {
+		r.Decoded++
+	}
+	if out.Alloc > r.MaxAlloc {
+		r.MaxAlloc = out.Alloc
+	}
+	r.Stages[out.Stage]++
+	if out.Contained != "" {
+		site := out.Contained
+		if i := strings.LastIndex(site, " at "); i >= 0 {
+			site = site[i+4:]
+		}
+		r.Contained[cs.Reactor+"|"+cs.Msg+"|"+site]++
+	}
+	// distinct non-trivial case: decoded at least to the message type, or rejected at a distinct stage
+	r.dset[fmt.Sprintf("%s|%02x|%s|%s|%s|%s|%s|%s", cs.Reactor, cs.Ch, cs.Msg, cs.Field, cs.Class, cs.State, cs.Peer, out.Stage)] = struct{}{}
+	if len(r.Samples) < 2 && (out.Stage == "peer-state-changed" || out.Stage == "node-state-changed" || out.Stage == "rejected-peer-stopped") && cs.Kind != "valid" {
+		c := *cs
+		c.freeze()
+		if len(c.Hex) < 600 {
+			b, _ := json.Marshal(map[string]interface{}{"case": c, "stage": out.Stage, "alloc_bytes": out.Alloc})
+			r.Samples = append(r.Samples, b)
+		}
+	}
+	if len(out.Viols) == 0 {
+		return
+	}
+	for _, v := range out.Viols {
+		if v.Oracle == "harness" {
+			r.Irrepro = append(r.Irrepro, fmt.Sprintf("harness failure in %s/%s/%s: %s", cs.Reactor, cs.State, cs.Msg, v.What))
+			return
+		}
+	}
+	// confirm (5 re-executions on fresh state) the first occurrence of each class in this worker
+	key := fmt.Sprintf("%s|%s|%s|%s|%s|%s|%s", cs.Reactor, cs.Msg, cs.Field, cs.Class, cs.State, cs.Peer, oracleSet(out))
+	if !w.seenViol[key] {
+		w.seenViol[key] = true
+		want := oracleSet(out)
+		for i := 0; i < 5; i++ {
+			w.dropState(cs)
+			again := w.execute(cs)
+			if got := oracleSet(again); got != want {
+				c := *cs
+				c.freeze()
+				b, _ := json.Marshal(c)
+				r.Irrepro = append(r.Irrepro, fmt.Sprintf("violation {%s} re-executed as {%s}: %s", want, got, short(string(b), 600)))
+				return
+			}
+		}
+	}
+	c := *cs
+	c.freeze()
+	for _, v := range out.Viols {
+		r.Viols = append(r.Viols, violRec{Case: &c, Oracle: v.Oracle, What: v.What})
+	}
+}
+
+func (w *worker) dropState(cs *caseT) {
+	if cs.Reactor == "consensus" {
+		w.cons.drop(cs.State)
+	} else {
+		w.oth.reset()
+	}
+}
+
+func newUnitResult(idx int) *unitResult {
+	return &unitResult{Unit: idx, Stages: map[string]int64{}, Contained: map[string]int64{}, Notes: map[string]int64{}, dset: map[string]struct{}{}}
+}
+
+// flush sends what has been accumulated so far; upto = first case index not covered.
+func (w *worker) flush(kind string, upto int) {
+	r := w.res
+	r.T, r.Upto = kind, upto
+	r.WallMs = float64(time.Since(w.flushAt).Microseconds()) / 1000
+	w.flushAt = time.Now()
+	r.Builds = w.cons.builds + w.oth.builds - w.buildsAt
+	w.buildsAt = w.cons.builds + w.oth.builds
+	for k := range r.dset {
+		r.Distinct = append(r.Distinct, k)
+	}
+	sort.Strings(r.Distinct)
+	b, _ := json.Marshal(r)
+	w.out.Write(b)
+	w.out.WriteByte('\n')
+	w.out.Flush()
+	w.res = newUnitResult(r.Unit)
+	w.sinceFl = 0
+}
+
+func (w *worker) runUnit(us []*unit, idx, from, only int, skip map[int]bool) {
+	u := us[idx]
+	w.unitIdx, w.caseIdx, w.from, w.only, w.skip = idx, 0, from, only, skip
+	w.res = newUnitResult(idx)
+	w.sinceFl = 0
+	w.flushAt = time.Now()
+	w.buildsAt = w.cons.builds + w.oth.builds
+	u.gen(w, u, w.emit)
+	w.flush("res", w.caseIdx)
+}
+
+func setLogging() {
+	// production-like: records at Info and above are formatted (into the void), Debug/Trace are filtered
+	// before formatting. C18_LOG=discard turns formatting off.
+	if os.Getenv("C18_LOG") == "discard" {
+		log.Root().SetHandler(log.DiscardHandler())
+		return
+	}
+	log.Root().SetHandler(log.LvlFilterHandler(log.LvlInfo, log.StreamHandler(io.Discard, log.TerminalFormat(false))))
+}
+
+func workerMain(spec string) {
+	// spec: "<index>/<tier>"
+	parts := strings.Split(spec, "/")
+	thorough := len(parts) > 1 && parts[1] == "thorough"
+	// an allocation the machine cannot serve must kill this process only, and deterministically
+	lim := uint64(12 << 30)
+	syscall.Setrlimit(syscall.RLIMIT_AS, &syscall.Rlimit{Cur: lim, Max: lim})
+	debug.SetGCPercent(100)
+	setLogging()
+	w := &worker{thorough: thorough, seenViol: map[string]bool{}, only: -1, capture: -1}
+	t, _ := strconv.Atoi(os.Getenv("C18_TARGET"))
+	w.cons = newConsEnv(t)
+	w.oth = newOtherEnv(w.cons)
+	if jp := os.Getenv("C18_JOURNAL"); jp != "" {
+		f, err := os.OpenFile(jp, os.O_CREATE|os.O_RDWR, 0o644)
+		if err == nil {
+			w.journal = f
+		}
+	}
+	us := allUnits(thorough)
+	w.out = bufio.NewWriterSize(os.Stdout, 1<<20)
+	in := bufio.NewScanner(os.Stdin)
+	in.Buffer(make([]byte, 1<<20), 1<<20)
+	for in.Scan() {
+		f := strings.Fields(in.Text())
+		if len(f) == 0 {
+			continue
+		}
+		if f[0] == "Q" {
+			break
+		}
+		if f[0] == "C" { // print a case without executing it
+			idx, _ := strconv.Atoi(f[1])
+			ci, _ := strconv.Atoi(f[2])
+			w.capture, w.caseIdx, w.only, w.from, w.skip = ci, 0, -1, 0, nil
+			us[idx].gen(w, us[idx], w.emit)
+			if w.capture == ci {
+				w.out.WriteString("{}\n")
+				w.out.Flush()
+			}
+			w.capture = -1
+			continue
+		}
+		if f[0] == "R" { // replay a stored case
+			var cs caseT
+			b, _ := os.ReadFile(f[1])
+			json.Unmarshal(b, &cs)
+			cs.thaw()
+			o := w.execute(&cs)
+			ob, _ := json.Marshal(map[string]interface{}{"Stage": o.Stage, "Contained": o.Contained, "Alloc": o.Alloc, "Viols": o.Viols})
+			w.out.Write(ob)
+			w.out.WriteByte('\n')
+			w.out.Flush()
+			continue
+		}
+		idx, _ := strconv.Atoi(f[1])
+		from, only := 0, -1
+		skip := map[int]bool{}
+		if len(f) > 2 {
+			from, _ = strconv.Atoi(f[2])
+		}
+		if len(f) > 3 {
+			only, _ = strconv.Atoi(f[3])
+		}
+		if len(f) > 4 {
+			for _, x := range strings.Split(f[4], ",") {
+				if n, err := strconv.Atoi(x); err == nil {
+					skip[n] = true
+				}
+			}
+		}
+		w.runUnit(us, idx, from, only, skip)
+	}
+	os.Exit(0)
+}
+
+// ---------------------------------------------------------------------------------------------
+// parent
+
+type workerProc struct {
+	id      int
+	cmd     *exec.Cmd
+	in      io.WriteCloser
+	out     *bufio.Scanner
+	journal string
+	stderr  *tailBuf
+}
+
+type tailBuf struct {
+	mu sync.Mutex
+	b  []byte
+}
+
+// keeps the first 8 KB (a Go crash states its reason first) and drops the rest
+func (t *tailBuf) Write(p []byte) (int, error) {
+	t.mu.Lock()
+	if room := 8192 - len(t.b); room > 0 {
+		if len(p) < room {
+			room = len(p)
+		}
+		t.b = append(t.b, p[:room]...)
+	}
+	t.mu.Unlock()
+	return len(p), nil
+}
+func (t *tailBuf) String() string { t.mu.Lock(); defer t.mu.Unlock(); return string(t.b) }
+
+func startWorker(id int, tier string, target int) (*workerProc, error) {
+	exe, _ := os.Executable()
+	dir := os.Getenv("VERIF_BDIR")
+	if dir == "" {
+		dir = os.TempDir()
+	}
+	jp := filepath.Join(dir, fmt.Sprintf("c18-journal-%d-%d", os.Getpid(), id))
+	os.Remove(jp)
+	cmd := exec.Command(exe)
+	cmd.Env = append(os.Environ(), fmt.Sprintf("C18_WORKER=%d/%s", id, tier), "C18_JOURNAL="+jp, fmt.Sprintf("C18_TARGET=%d", target), "GOMAXPROCS=2")
+	in, err := cmd.StdinPipe()
+	if err != nil {
+		return nil, err
+	}
+	outp, err := cmd.StdoutPipe()
+	if err != nil {
+		return nil, err
+	}
+	tb := &tailBuf{}
+	cmd.Stderr = tb
+	if err := cmd.Start(); err != nil {
+		return nil, err
+	}
+	sc := bufio.NewScanner(outp)
+	sc.Buffer(make([]byte, 1<<20), 256<<20)
+	return &workerProc{id: id, cmd: cmd, in: in, out: sc, journal: jp, stderr: tb}, nil
+}
+
+func (wp *workerProc) readJournal() (unit, cs int) {
+	b, err := os.ReadFile(wp.journal)
+	if err != nil || len(b) < 16 {
+		return -1, -1
+	}
+	var u, c uint64
+	for i := 0; i < 8; i++ {
+		u |= uint64(b[i]) << (8 * i)
+		c |= uint64(b[8+i]) << (8 * i)
+	}
+	return int(u), int(c)
+}
+
+func (wp *workerProc) stop() {
+	fmt.Fprintln(wp.in, "Q")
+	wp.in.Close()
+	wp.cmd.Wait()
+	os.Remove(wp.journal)
+}
+
+// request runs (part of) a unit and returns the partial results received; ok=false if the worker died
+// (the partial results received before are still valid; upto tells where they end).
+func (wp *workerProc) request(idx, from, only int, skip []int) (parts []*unitResult, upto int, ok bool) {
+	var sk []string
+	for _, x := range skip {
+		sk = append(sk, strconv.Itoa(x))
+	}
+	fmt.Fprintf(wp.in, "U %d %d %d %s\n", idx, from, only, strings.Join(sk, ","))
+	upto = from
+	for wp.out.Scan() {
+		var r unitResult
+		if err := json.Unmarshal(wp.out.Bytes(), &r); err != nil {
+			break
+		}
+		parts = append(parts, &r)
+		upto = r.Upto
+		if r.T == "res" {
+			return parts, upto, true
+		}
+	}
+	wp.cmd.Wait()
+	return parts, upto, false
+}
+
+type deathRec struct {
+	Unit   int
+	Case   int
+	Stderr string
+}
+
+func main() {
+	if spec := os.Getenv("C18_WORKER"); spec != "" {
+		workerMain(spec)
+		return
+	}
+	if os.Getenv("C18_LIST") != "" {
+		for i, u := range allUnits(os.Getenv("C18_LIST") == "thorough") {
+			fmt.Println(i, u.ID, u.Est)
+		}
+		return
+	}
+	r := report.New("C18", "exploration")
+	if r.ReplayPath != "" {
+		replayMain(r)
+		return
+	}
+	tier := "quick"
+	if r.Thorough() {
+		tier = "thorough"
+		r.SetDeadline(13 * time.Minute)
+	} else {
+		r.SetDeadline(80 * time.Second)
+	}
+	setLogging()
+	target := pickTarget()
+	us := allUnits(r.Thorough())
+	order := make([]int, len(us))
+	for i := range order {
+		order[i] = i
+	}
+	sort.SliceStable(order, func(a, b int) bool { return us[order[a]].Est > us[order[b]].Est })
+
+	nw := runtime.NumCPU()
+	if s := os.Getenv("C18_WORKERS"); s != "" {
+		nw, _ = strconv.Atoi(s)
+	}
+	if nw > len(us) {
+		nw = len(us)
+	}
+	var mu sync.Mutex
+	next := 0
+	var results []*unitResult
+	var deaths []deathRec
+	machinery := []string{}
+	expired := false
+	unitsDone := 0
+	var wg sync.WaitGroup
+	for i := 0; i < nw; i++ {
+		wg.Add(1)
+		go func(id int) {
+			defer wg.Done()
+			wp, err := startWorker(id, tier, target)
+			if err != nil {
+				mu.Lock()
+				machinery = append(machinery, "cannot start worker: "+err.Error())
+				mu.Unlock()
+				return
+			}
+			for {
+				mu.Lock()
+				if next >= len(order) || r.Expired() {
+					if next < len(order) {
+						expired = true
+					}
+					mu.Unlock()
+					break
+				}
+				idx := order[next]
+				next++
+				mu.Unlock()
+				from := 0
+				var killers []int
+				for {
+					parts, upto, ok := wp.request(idx, from, -1, killers)
+					mu.Lock()
+					results = append(results, parts...)
+					mu.Unlock()
+					if ok {
+						mu.Lock()
+						unitsDone++
+						mu.Unlock()
+						break
+					}
+					// the worker died: attribute to the journalled case, continue from the last checkpoint in a new
+					// worker, skipping the killer
+					ju, jc := wp.readJournal()
+					errTail := wp.stderr.String()
+					os.Remove(wp.journal)
+					mu.Lock()
+					if ju != idx || jc < upto {
+						machinery = append(machinery, fmt.Sprintf("worker %d died outside a journalled case (unit %d from %d, journal %d:%d): %s", id, idx, upto, ju, jc, short(errTail, 600)))
+						mu.Unlock()
+						return
+					}
+					deaths = append(deaths, deathRec{Unit: idx, Case: jc, Stderr: errTail})
+					tooMany := len(deaths) > 100 || len(killers) > 20
+					mu.Unlock()
+					if tooMany {
+						mu.Lock()
+						machinery = append(machinery, "too many worker deaths")
+						mu.Unlock()
+						return
+					}
+					from = upto
+					killers = append(killers, jc)
+					wp, err = startWorker(id, tier, target)
+					if err != nil {
+						return
+					}
+				}
+			}
+			wp.stop()
+		}(i)
+	}
+	wg.Wait()
+	finish(r, us, results, deaths, machinery, expired, tier, target, unitsDone)
+}
+
+// keep the linker honest about packages used only in some files
+var _ = time.Now
